@@ -30,6 +30,8 @@ DOCS = [
                      [['e', 'in', ['R'], []]]],
                     ['foreign', 'F', [['fp', ['I'], 'provides', False]]]]],
      ['subint', 'S', 0, 9],
+     # a global TYPE named Zed and a global NAMESPACE named Yps here; the other way round in D1
+     ['enum', 'Zed', ['Z1']], ['ns', ['Yps'], [['enum', 'InYps', ['Y']]]],
      ['ns', ['A', 'B'], [['enum', 'Deep', ['P']]]],           # namespace A.B written as ONE multi-identifier namespace
      ['component', 'C', [['p', ['A', 'I'], 'provides', False]]],
      ['system', 'Sys', [['sp', ['A', 'I'], 'provides', False]], [['c', ['C']]], [[['sp', None], ['p', 'c']]]],
@@ -40,6 +42,7 @@ DOCS = [
                     ['foreign', 'F', []],
                     ['ns', ['B'], [['enum', 'Deep', ['Q', 'R']]]]]],      # ... and as a namespace nested in A
      ['component', 'C', []], ['import', 'x.dzn'], ['subint', 'S', 2, 3],
+     ['ns', ['Zed'], [['enum', 'InZed', ['Z']]]], ['extern', 'Yps', 'int'],
      ['system', 'Sys', [], [['c', ['C']], ['f', ['A', 'F']]], []]],
     # fails half-way, INSIDE a (nested) namespace, after some declarations were already parsed
     [['enum', 'Early', ['P']], ['ns', ['A'], [['extern', 'T', 'long'], ['ns', ['Deep'], [
